@@ -30,7 +30,7 @@ def main():
     ]
     if c.setup():
         for label, kw in configs(c.tier):
-            c.run(label, 'rsym.hc', 'OpSequence', kw, required_witnesses=tuple('op:' + o for o in kw.get('ops', ('add', 'opt'))[:2]), time_cap=200 if c.tier == 'quick' else 900)
+            c.run(label, 'rsym.hc', 'OpSequence', kw, required_witnesses=tuple('op:' + o for o in kw.get('ops', ('add', 'opt'))[:2]), time_cap=600 if c.tier == 'quick' else 900)
     c.finish(bounds={'sequences': [l for l, _ in configs(c.tier)]}, outside=['longer sequences', 'names outside {a,b,c}', 'trees deeper than parent/child/grandchild'],
              trusted=['rsym + models', 'z3', 'ordered-map model (rsym/hc.py)', 'tools/replay op=ops'],
              technique='symbolic execution of operation sequences (operation kind, names, flags symbolic); stepwise comparison with an ordered-map model decided by z3')
